@@ -52,6 +52,34 @@ Theorem C13_set_field_frame :
        forall k', read σ' (NField ob' h' k') = read σ (NField ob' h' k')).
 Proof. exact set_field_frame. Qed.
 
+(* `add <obj>.http.<h> = E;` changes at most that header (and its views) *)
+Theorem C13_add_frame :
+  forall Os P n fn o h e σ out σ',
+    wf σ -> pure e = true -> exec repaired Os P n fn (SAdd o h e) σ = OK (out, σ') ->
+    forall x, independent x (NHeader o h) -> is_group x = false -> read σ' x = read σ x.
+Proof. exact add_frame. Qed.
+
+(* `error [code [response]];` changes the documented implicit cells ctx.ObjectStatus / ctx.ObjectResponse
+   (gs, gr) and nothing else, and ends with the state error; `restart;` changes nothing. *)
+Theorem C13_error_frame :
+  forall Os P n fn ok gs gr code arg σ out σ',
+    wf σ -> (forall e, code = Some e -> pure e = true) -> (forall e, arg = Some e -> pure e = true) ->
+    exec repaired Os P n fn (SError ok gs gr code arg) σ = OK (out, σ') ->
+    out = OState st_error /\
+    forall x, x <> NGlobal gs -> x <> NGlobal gr -> is_group x = false -> read σ' x = read σ x.
+Proof. exact error_frame. Qed.
+
+Theorem C13_restart_frame :
+  forall Os P n fn ok σ out σ',
+    exec repaired Os P n fn (SRestart ok) σ = OK (out, σ') -> out = OState st_restart /\ σ' = σ.
+Proof. exact restart_frame. Qed.
+
+Theorem C13_error_example : error_example_stmt.
+Proof. exact error_example. Qed.
+
+Theorem C13_add_example : add_example_stmt.
+Proof. exact add_example. Qed.
+
 (* `unset T` / `remove T` on a header or a sub-field: the same frame *)
 Theorem C13_unset_frame :
   forall Os P n fn T σ o σ',
@@ -154,6 +182,11 @@ Print Assumptions C13_eval_frame.
 Print Assumptions C13_eval_frame_calls.
 Print Assumptions C13_set_frame.
 Print Assumptions C13_set_field_frame.
+Print Assumptions C13_add_frame.
+Print Assumptions C13_error_frame.
+Print Assumptions C13_restart_frame.
+Print Assumptions C13_error_example.
+Print Assumptions C13_add_example.
 Print Assumptions C13_unset_frame.
 Print Assumptions C13_switch_example.
 Print Assumptions C13_field_example.
